@@ -3,7 +3,7 @@ from __future__ import annotations
 
 from typing import Any, Dict, List, Tuple
 
-from hv import core, cpdrv
+from hv import core, cpdrv, drv
 from hv.ref import cp as refcp
 
 ID = "C08"
@@ -202,6 +202,39 @@ def check_graph(A: cpdrv.Analysed, res: core.CaseResult, truth: Dict[str, Any]) 
     return types
 
 
+def _same_graph_but_for_zero_weight_launch_edges(A, res) -> None:  # noqa: ANN001
+    """The option CRITICAL_PATH_ADD_ZERO_WEIGHT_LAUNCH_EDGE only *adds* zero-weight launch edges where a kernel has no launch-delay
+    edge: analysing the same window again with the option off must give the same nodes and the same edges with the same weights,
+    less exactly those additions."""
+    from hv.mon import cplog
+    cplog.take()
+    with core.env(CRITICAL_PATH_ADD_ZERO_WEIGHT_LAUNCH_EDGE=None):
+        ok, out = drv.guard(res, "critical_path_analysis (option off)", A.ta.critical_path_analysis, A.rank, A.annotation, A.instance)
+    cplog.take()
+    if not ok or not isinstance(out, tuple):
+        return
+    g0, g1 = out[0], A.graph
+    tag = f"window={A.annotation!r}/{A.instance} rank={A.rank}"
+
+    def table(g):  # noqa: ANN001
+        nl = g.node_list
+        return {((int(nl[u].ev_idx), bool(nl[u].is_start)), (int(nl[v_].ev_idx), bool(nl[v_].is_start))): (d["object"].type.value, d["weight"], d["object"].weight)
+                for u, v_, d in g.edges(data=True)}
+    t0, t1 = table(g0), table(g1)
+    res.counters["graphs_compared_with_option_off"] += 1
+    changed = {k: (t0[k], t1[k]) for k in t0 if k in t1 and t0[k] != t1[k]}
+    lost = [k for k in t0 if k not in t1]
+    extra = {k: t1[k] for k in t1 if k not in t0}
+    if changed:
+        res.bad("zero-weight-option-changes-edges", f"{tag}: edges that differ between option off and on (edge: off, on): {list(changed.items())[:3]}")
+    if lost:
+        res.bad("zero-weight-option-loses-edges", f"{tag}: edges present with the option off but absent with it on: {lost[:3]}")
+    bad_extra = {k: x for k, x in extra.items() if not (x[0] == refcp.T_LAUNCH and x[1] == 0 and x[2] == 0)}
+    if bad_extra:
+        res.bad("zero-weight-option-adds-other-edges", f"{tag}: the option added edges that are not zero-weight launch edges: {list(bad_extra.items())[:3]}")
+    res.counters["zero_weight_launch_edges_added_by_option"] += len(extra)
+
+
 def run_case(case: Dict[str, Any], ctx: Any) -> core.CaseResult:
     res = core.CaseResult()
     nontrivial = False
@@ -215,6 +248,8 @@ def run_case(case: Dict[str, Any], ctx: Any) -> core.CaseResult:
             ctx.notes.setdefault("edge_adding_sites", [])
             if site not in ctx.notes["edge_adding_sites"]:
                 ctx.notes["edge_adding_sites"].append(site)
+        if A.zero_weight and not res.violations:
+            _same_graph_but_for_zero_weight_launch_edges(A, res)
         if res.sample is None:
             res.sample = {"window": [A.annotation, str(A.instance)], "nodes": len(A.graph.node_list), "edges": A.graph.number_of_edges(),
                           "edge_types": types, "zero_weight_flag": A.zero_weight, "threads": len({e.tid for e in A.exp.analysed if e.stream == -1}),
